@@ -211,6 +211,75 @@ for _f, _id in ((guard_read, "C07.GUARD-read"), (wmw_value, "C07.WMW-value"), (w
                 (tyg_by_value, "C07.TYG-by-value")):
     _f.rule_id = _id
 
+def dom_status_first(ctx, prog, R="C07.DOM-status-first"):
+    """The status store `Stabilising` is the first thing a stabilise does: every call in stabilise_start (and in
+    its caller, before stabilise_start) from which user code is reachable is dominated by it. Otherwise an
+    observability callback / a Drop run while linking or unlinking observers sees NotStabilising: reads return
+    half-updated values and var writes are applied to the pass in progress."""
+    from .usercalls import user_calls
+    from .callgraph import path_between
+    from .effects import writes_of as _writes_of
+    ctx.rule(R, "State.status := Stabilising dominates every call of stabilise_start, and precedes every call of its "
+                "caller, from which a user function (node function, observability callback, handler) is reachable")
+    ws = [a for a in _writes_of(prog, "incremental::state::State.status") if a.kind == "set"]
+    stores = []
+    for a in ws:
+        e = expr(a.fn, a.site.args[1], DefUse(a.fn)) if len(a.site.args) > 1 else ("?",)
+        if e[0] == "agg" and e[1] == "IncrStatus::Stabilising":
+            stores.append(a)
+    if len(stores) != 1:
+        ctx.missing(R, "the single store of IncrStatus::Stabilising (found %d)" % len(stores))
+        return
+    st = stores[0]
+    S = st.fn
+    user_fns = {u.site.fn.path for u in user_calls(prog)}
+    if not user_fns:
+        ctx.missing(R, "user call sites")
+        return
+
+    def reaches_user(t):
+        roots = [T.path for T in prog.call_targets(t)]
+        return path_between(prog, roots, user_fns) if roots else None
+
+    c = S.cfg()
+    n = 0
+    for t in S.calls():
+        if S.is_cleanup(t.bb) or t.bb == st.bb:
+            continue
+        p = reaches_user(t)
+        if p is None:
+            continue
+        n += 1
+        ctx.site(R, S, "bb%d call %s reaches user code" % (t.bb, q.short_path(t.callee)))
+        inst = "after-store:" + q.short_path(t.callee)
+        if c.dominates(st.bb, t.bb):
+            ctx.ok(R, inst)
+        else:
+            ctx.fail(R, inst, "%s runs before the status becomes Stabilising and can reach user code (%s): the "
+                     "callback would read observers / write vars as if no stabilise were running"
+                     % (q.short_path(t.callee), " -> ".join(q.short_path(x) for x in p)), fn=S, span=t.span)
+    ctx.floor(R, n, 2)
+    # the caller(s): nothing user-reaching before the call of S
+    for ct in prog.callers(S):
+        P = ct.fn
+        pc = P.cfg()
+        for t in P.calls():
+            if P.is_cleanup(t.bb) or t.bb == ct.bb or pc.dominates(ct.bb, t.bb):
+                continue
+            if q.is_tracing(t) or t.j.get("from_expansion"):
+                continue
+            p = reaches_user(t)
+            if p is None:
+                continue
+            ctx.site(R, P, "bb%d call %s before stabilise_start" % (t.bb, q.short_path(t.callee)))
+            ctx.fail(R, "before-start:" + q.short_path(t.callee), "%s can reach user code and is not preceded by "
+                     "stabilise_start in %s" % (q.short_path(t.callee), P.short), fn=P, span=t.span)
+        ctx.ok(R, "caller:" + P.short)
+
+
+dom_status_first.rule_id = "C07.DOM-status-first"
+
+
 def sib_var_slot(ctx, prog):
     """The var's value slot is part of the snapshot: while Stabilising no write path of Var may touch it
     (the deferred slot takes the write). Same table as C08.SIB-writes, reported under C07."""
@@ -221,4 +290,4 @@ def sib_var_slot(ctx, prog):
 
 sib_var_slot.rule_id = "C07.SIB-var-slot"
 
-RULES = [guard_read, wmw_value, wmw_inuse, tyg_by_value, sib_var_slot]
+RULES = [guard_read, wmw_value, wmw_inuse, tyg_by_value, sib_var_slot, dom_status_first]
